@@ -1189,11 +1189,34 @@ def rule_r5(chk, prog):
             cur = par
         return None
 
+    def enum_binding(name, site):
+        """``for i, name in enumerate(S)`` around site: S[i]"""
+        cur = getattr(site, '_parent', None)
+        while cur is not None and cur is not f:
+            if isinstance(cur, ast.For) and isinstance(
+                    cur.target, ast.Tuple) and len(
+                        cur.target.elts) == 2 and all(
+                            isinstance(t, ast.Name)
+                            for t in cur.target.elts) and \
+                    cur.target.elts[1].id == name and isinstance(
+                        cur.iter, ast.Call) and call_name(
+                            cur.iter) == 'enumerate' and len(
+                                cur.iter.args) == 1:
+                return ast.Subscript(value=cur.iter.args[0],
+                                     slice=ast.Name(
+                                         id=cur.target.elts[0].id,
+                                         ctx=ast.Load()), ctx=ast.Load())
+            cur = getattr(cur, '_parent', None)
+        return None
+
     def resolve(e, site, depth=0):
         if isinstance(e, ast.Name) and depth < 4:
             d = nearest_def(e.id, site)
             if d is not None:
                 return resolve(d, site, depth + 1)
+            d = enum_binding(e.id, site)
+            if d is not None:
+                return d
         return e
 
     for s in cons:
